@@ -432,7 +432,7 @@ func checkC13(tier, replay string) int {
 	ctx.Cov["compilations_compared_across_process_states"] = stateCompiles
 	ctx.Cov["distinct_text_results_seen"] = distinctTexts
 	ctx.Cov["race_pass_runs"] = raceRuns
-	ctx.Cov["rule"] = "the current sources of the library packages are rewritten (a scheduling point before every statement; functions that iterate maps run as atomic steps), compiled with go build -overlay and run under a cooperative scheduler; for each scenario (two copies sharing backing arrays, two architectures, Assemble||Dump, Assemble||GetInfo, Assemble||text conversions, same value twice, three threads) every schedule with at most 1 preemption (2 for the small and the tiny shared-copies scenarios; thorough: 2 for every two-thread scenario and 3 for the tiny one) is executed on the real code; oracle per schedule: each call returns what it returns alone and every input policy incl. spare slice capacity is bit-identical; a reported schedule is replayed twice in a fresh process; plus all operation histories of length <= 4 over 9 operations (incl. compiling two values that share one Syscalls slice for two architectures, and modifying a policy value that was compiled before), text forms over 512 calls in fresh processes, compilations of the same policy (five policies, one with every action as default / group action) before and after the process state changed in fresh children, also with the state changed before the first compilation of the process (a filter loaded on the compiling thread only / on every thread; one that answers EPERM to seccomp(2) itself; as root and as uid 65534; compiled on the loading thread and on another one): all results must equal the compilation in a process without filters, and a separate free-running -race pass of the same bodies"
+	ctx.Cov["rule"] = "the current sources of the library packages are rewritten (a scheduling point before every statement; functions that iterate maps run as atomic steps), compiled with go build -overlay and run under a cooperative scheduler; for each scenario (two copies sharing backing arrays, two architectures, Assemble||Dump, Assemble||GetInfo, Assemble||text conversions, same value twice, three threads) every schedule with at most 1 preemption (2 for the small and the tiny shared-copies scenarios; thorough: 2 for every two-thread scenario and 3 for the tiny one) is executed on the real code; oracle per schedule: each call returns what it returns alone and every input policy incl. spare slice capacity is bit-identical; a reported schedule is re-run in a fresh process (up to four times: it counts when two consecutive runs show the same violation at the same sites, the first run of a process having empty pools and caches); plus all operation histories of length <= 4 over 12 operations (incl. compiling a group of 60 names that is accepted / rejected for an unknown name / rejected for a duplicate, compiling two values that share one Syscalls slice for two architectures, and modifying a policy value that was compiled before), text forms over 512 calls in fresh processes, compilations of the same policy (five policies, one with every action as default / group action) before and after the process state changed in fresh children, also with the state changed before the first compilation of the process (a filter loaded on the compiling thread only / on every thread; one that answers EPERM to seccomp(2) itself; as root and as uid 65534; compiled on the loading thread and on another one): all results must equal the compilation in a process without filters, and a separate free-running -race pass of the same bodies"
 	ctx.Sample(map[string]any{"scenario": "shared-copies", "threads": []string{"Assemble(p)", "Assemble(copy of p sharing Syscalls/Names/Conditions arrays)"}, "schedule_example": "thread 0 runs to filter.go:2xx, preempted, thread 1 runs to completion, thread 0 resumes"})
 	ctx.Assumptions = []string{"scheduling points at statement granularity; unsynchronised accesses inside one statement are covered by the separate -race pass", "map iteration order cannot be controlled; it is covered by repetition across processes (miss probability < 1e-14 per process for the 2-key flag map)"}
 	return ctx.Finish()
@@ -462,77 +462,100 @@ func c13Histories(ctx *evid.Ctx) (int64, int64) {
 	soloPext := c13Solo("hist-Pext", 0)
 	soloSP := c13Solo("shared-slices-two-archs", 0)
 	soloSQ := c13Solo("shared-slices-two-archs", 1)
+	soloL := [3]string{c13Solo("hist-L", 0), c13Solo("hist-L", 1), c13Solo("hist-L", 2)}
 	var n, steps int64
-	var seq []int
-	var rec func()
-	run := func() {
-		n++
-		p := c13Policy(x, 1)
-		q := c13Policy(arm, 0)
-		snapP, snapQ := c13Snapshot(p), c13Snapshot(q)
-		sp, sq := mkShared()
-		extended := false
-		for si, op := range seq {
-			steps++
-			var got, want string
-			switch op {
-			case 0, 1:
-				got, want = c13Compile(p), soloP
-				if extended {
-					want = soloPext
-				}
-			case 2:
-				cp := *p
-				got, want = c13Compile(&cp), soloP
-				if extended {
-					want = soloPext
-				}
-			case 3:
-				got, want = c13Compile(q), soloQ
-			case 4:
-				if extended {
-					continue
-				}
-				got, want = c13Dump(p), soloDump
-			case 5:
-				got, want = c13Texts(), soloTexts
-			case 6:
-				got, want = c13Compile(sp), soloSP
-			case 7:
-				got, want = c13Compile(sq), soloSQ
-			case 8:
-				// the caller modifies the policy value it compiled before (one more group, another default) and compiles again:
-				// the result must be that of an equal, freshly built policy
-				if !extended {
-					c13Extend(x, p)
-					extended = true
-					snapP = c13Snapshot(p)
-				}
-				got, want = c13Compile(p), soloPext
+	// the histories are independent: one worker per first operation
+	parallelFor(12, func(first int) {
+		var ln, lsteps int64
+		var seq []int
+		var rec func()
+		run := func() {
+			ln++
+			var large [3]*seccomp.Policy
+			var snapL [3]string
+			for i := range large {
+				large[i] = c13Large(x, i)
+				snapL[i] = c13Snapshot(large[i])
 			}
-			if got != want {
-				ctx.Violation(fmt.Sprintf("C13:history:op%d", op), fmt.Sprintf("history %v: step %d (op %d) gives a different result than the same call alone", seq, si, op), map[string]any{"history": append([]int{}, seq...)})
+			p := c13Policy(x, 1)
+			q := c13Policy(arm, 0)
+			snapP, snapQ := c13Snapshot(p), c13Snapshot(q)
+			sp, sq := mkShared()
+			extended := false
+			for si, op := range seq {
+				lsteps++
+				var got, want string
+				switch op {
+				case 0, 1:
+					got, want = c13Compile(p), soloP
+					if extended {
+						want = soloPext
+					}
+				case 2:
+					cp := *p
+					got, want = c13Compile(&cp), soloP
+					if extended {
+						want = soloPext
+					}
+				case 3:
+					got, want = c13Compile(q), soloQ
+				case 4:
+					if extended {
+						continue
+					}
+					got, want = c13Dump(p), soloDump
+				case 5:
+					got, want = c13Texts(), soloTexts
+				case 6:
+					got, want = c13Compile(sp), soloSP
+				case 7:
+					got, want = c13Compile(sq), soloSQ
+				case 8:
+					// the caller modifies the policy value it compiled before (one more group, another default) and compiles again:
+					// the result must be that of an equal, freshly built policy
+					if !extended {
+						c13Extend(x, p)
+						extended = true
+						snapP = c13Snapshot(p)
+					}
+					got, want = c13Compile(p), soloPext
+				case 9, 10, 11:
+					// a group of 60 names: accepted, rejected for an unknown name, rejected for a duplicate - a rejected
+					// compilation, too, must leave nothing behind that a later one can see
+					got, want = c13Compile(large[op-9]), soloL[op-9]
+				}
+				if got != want {
+					ctx.Violation(fmt.Sprintf("C13:history:op%d", op), fmt.Sprintf("history %v: step %d (op %d) gives a different result than the same call alone", seq, si, op), map[string]any{"history": append([]int{}, seq...)})
+					return
+				}
+			}
+			for i := range large {
+				if c13Snapshot(large[i]) != snapL[i] {
+					ctx.Violation("C13:history:input-modified", fmt.Sprintf("history %v modified a caller's policy", seq), map[string]any{"history": append([]int{}, seq...)})
+				}
+			}
+			if c13Snapshot(p) != snapP || c13Snapshot(q) != snapQ {
+				ctx.Violation("C13:history:input-modified", fmt.Sprintf("history %v modified a caller's policy", seq), map[string]any{"history": append([]int{}, seq...)})
+			}
+		}
+		rec = func() {
+			if len(seq) > 0 {
+				run()
+			}
+			if len(seq) == 4 {
 				return
 			}
+			for op := 0; op < 12; op++ {
+				seq = append(seq, op)
+				rec()
+				seq = seq[:len(seq)-1]
+			}
 		}
-		if c13Snapshot(p) != snapP || c13Snapshot(q) != snapQ {
-			ctx.Violation("C13:history:input-modified", fmt.Sprintf("history %v modified a caller's policy", seq), map[string]any{"history": append([]int{}, seq...)})
-		}
-	}
-	rec = func() {
-		if len(seq) > 0 {
-			run()
-		}
-		if len(seq) == 4 {
-			return
-		}
-		for op := 0; op < 9; op++ {
-			seq = append(seq, op)
-			rec()
-			seq = seq[:len(seq)-1]
-		}
-	}
-	rec()
+		seq = append(seq, first)
+		rec()
+		atomic.AddInt64(&n, ln)
+		atomic.AddInt64(&steps, lsteps)
+	})
 	return n, steps
 }
 
